@@ -34,32 +34,53 @@ func runC20(c *eng.Ctx) {
 	if f := r1.NeedFunc(pkgFile + ".checkExecutableHookFile"); f != nil {
 		info := f.Pkg.TypesInfo
 		g := p.GraphOf(f)
-		// extension switch
+		// the excluded extensions: the constants K for which a test `filepath.Ext(name) == K` (a switch arm or a
+		// comparison, possibly through a local assigned just before) leads to `return ErrFileHasWrongExtension` on
+		// every path
 		var exts []string
-		var sw *ast.SwitchStmt
-		eng.InspectNoLit(f.Decl.Body, func(n ast.Node) bool {
-			if s, ok := n.(*ast.SwitchStmt); ok && s.Tag != nil {
-				if cl, isC := ast.Unparen(s.Tag).(*ast.CallExpr); isC && eng.IsPkgFunc(eng.CalleeOf(info, cl), "path/filepath", "Ext") {
-					sw = s
-				}
-			}
-			return true
-		})
 		wrongExt := p.Object(pkgFile, "ErrFileHasWrongExtension")
 		hiddenErr := p.Object(pkgFile, "ErrFileIsHidden")
-		okSwitch := sw != nil
-		if sw != nil {
-			for _, cl := range sw.Body.List {
-				cc := cl.(*ast.CaseClause)
-				rejects := false
-				for _, st := range cc.Body {
-					if r, isR := st.(*ast.ReturnStmt); isR && len(r.Results) == 1 && eng.SelObj(info, r.Results[0]) == wrongExt {
-						rejects = true
+		isExtCall := func(x ast.Expr) bool {
+			cl, isC := ast.Unparen(x).(*ast.CallExpr)
+			return isC && eng.IsPkgFunc(eng.CalleeOf(info, cl), "path/filepath", "Ext")
+		}
+		isWrongRet := func(n *eng.GNode) bool {
+			r, isR := n.Node.(*ast.ReturnStmt)
+			return isR && len(r.Results) == 1 && eng.SelObj(info, r.Results[0]) == wrongExt
+		}
+		okSwitch := false
+		seenExt := map[string]bool{}
+		for _, n := range g.Nodes {
+			for _, e := range n.Succ {
+				// every alternative under which the edge is taken must be `Ext == K`
+				var ks []string
+				all := true
+				for _, fc := range g.EdgeDisjuncts(e) {
+					x, y, eq, isEq := eng.EqAtom(fc)
+					if !isEq || !eq {
+						all = false
+						break
 					}
+					if !isExtCall(x) {
+						x, y = y, x
+					}
+					k, isK := eng.ConstStr(info, y)
+					if !isExtCall(x) || !isK {
+						all = false
+						break
+					}
+					ks = append(ks, k)
 				}
-				for _, e := range cc.List {
-					if s, isS := eng.ConstStr(info, e); isS && rejects {
-						exts = append(exts, s)
+				if !all || len(ks) == 0 {
+					continue
+				}
+				okSwitch = true
+				if g.MustPassToExit(eng.Query{From: []*eng.GNode{e.To}}, isWrongRet) == nil {
+					for _, k := range ks {
+						if !seenExt[k] {
+							seenExt[k] = true
+							exts = append(exts, k)
+						}
 					}
 				}
 			}
@@ -168,37 +189,56 @@ func runC20(c *eng.Ctx) {
 				nskip++
 				r2.Check(g.OnlyVia(n, nil, g.FactEdge(isDirFact)), fmt.Sprintf("%s$walk SkipDir#%d", f.Key, nskip), r.Pos(), "SkipDir only for directories", "SkipDir can be returned for a file (the rest of its directory would be skipped)")
 			}
-			// the skip condition: hidden || excluded
-			condOK := false
-			eng.InspectNoLit(lit.Lit.Body, func(n ast.Node) bool {
-				is, ok := n.(*ast.IfStmt)
-				if !ok {
-					return true
+			// the skip condition, decided on the graph: (1) SkipDir is reachable only through a test every alternative
+			// of which is `hidden` or `excluded` (one `||` condition or separate ifs); (2) assuming a directory that is
+			// hidden, respectively excluded, every path returns SkipDir
+			isHid := func(x ast.Expr) bool { return isHiddenTest(info, x) }
+			isExc := func(x ast.Expr) bool {
+				cl, isC := ast.Unparen(x).(*ast.CallExpr)
+				return isC && eng.IsPkgFunc(eng.CalleeOf(info, cl), "slices", "Contains") && len(cl.Args) == 2 && eng.SelObj(info, cl.Args[0]) == excl && isCallNamed(info, cl.Args[1], "Name")
+			}
+			skipEdge := func(e *eng.GEdge) bool {
+				ds := g.EdgeDisjuncts(e)
+				if len(ds) == 0 {
+					return false
 				}
-				b, isB := ast.Unparen(is.Cond).(*ast.BinaryExpr)
-				if !isB || b.Op != token.LOR {
-					return true
-				}
-				hid, exc := false, false
-				for _, side := range []ast.Expr{b.X, b.Y} {
-					if isHiddenTest(info, side) {
-						hid = true
+				for _, d := range ds {
+					if !d.Pos || d.Y != nil || !(isHid(d.X) || isExc(d.X)) {
+						return false
 					}
-					if cl, isC := ast.Unparen(side).(*ast.CallExpr); isC && (eng.IsPkgFunc(eng.CalleeOf(info, cl), "slices", "Contains")) && len(cl.Args) == 2 && eng.SelObj(info, cl.Args[0]) == excl && isCallNamed(info, cl.Args[1], "Name") {
-						exc = true
-					}
-				}
-				skips := false
-				for _, st := range is.Body.List {
-					if r, isR := st.(*ast.ReturnStmt); isR && len(r.Results) == 1 && eng.SelObj(info, r.Results[0]) == skipDir {
-						skips = true
-					}
-				}
-				if hid && exc && skips {
-					condOK = true
 				}
 				return true
-			})
+			}
+			isSkipRet := func(n *eng.GNode) bool {
+				r, isR := n.Node.(*ast.ReturnStmt)
+				return isR && len(r.Results) == 1 && eng.SelObj(info, r.Results[0]) == skipDir
+			}
+			condOK := nskip > 0
+			for _, n := range g.Nodes {
+				if isSkipRet(n) && !g.OnlyVia(n, nil, skipEdge) {
+					condOK = false
+				}
+			}
+			var dirEdges []*eng.GEdge
+			for _, n := range g.Nodes {
+				for _, e := range n.Succ {
+					if g.FactEdge(isDirFact)(e) {
+						dirEdges = append(dirEdges, e)
+					}
+				}
+			}
+			if len(dirEdges) == 0 {
+				condOK = false
+			}
+			for _, which := range []func(ast.Expr) bool{isHid, isExc} {
+				which := which
+				inf := g.Infeasible(func(fc eng.Fact) bool { return fc.Pos && fc.Y == nil && which(fc.X) })
+				for _, e := range dirEdges {
+					if g.MustPassToExit(eng.Query{From: []*eng.GNode{e.To}, AvoidEdge: inf}, isSkipRet) != nil {
+						condOK = false
+					}
+				}
+			}
 			r2.Check(condOK && nskip > 0, f.Key+"$walk skip-condition", lit.Lit.Pos(), "directories are skipped iff hidden or in the exclusion list", "directories are not skipped exactly when `hidden || excluded`")
 			// append iff check == nil
 			var pathsVar types.Object
